@@ -335,8 +335,8 @@ def run_special(task):
     rng = random.Random(4242)
     cex = []; n = 0; facts = 0
     for p in _programs('quick'):
-        if not any(a == 'real' or a[0] == 'list' for a in p['args']):
-            continue
+        if not any(a == 'real' or a[0] == 'list' for a in p['args']) or 'no_special' in p['tags']:
+            continue        # no_special: a loop bounded by an argument does not terminate on +inf
         for idx_args in c04.concrete_cases(p, rng, 8):
             bad, k = concrete_violations(p, c04.build_concrete(idx_args), tv.caller_ctx())
             n += 1; facts += k
